@@ -14,7 +14,7 @@ use serde_json::json;
 pub const KINDS: [Kind; 6] = [Kind::Ema, Kind::Tr, Kind::Atr, Kind::Macd, Kind::Kc, Kind::Ce];
 pub const MULTS: [f64; 6] = [0.0, 0.5, 2.0, 3.0, 1e3, -1.0];
 
-pub const RULE: &str = "Seeded scalar streams (any sign, RAND and band REGIME families) and valid OHLCV bar streams (6 styles + tiled AMZN) for EMA/TR/ATR/MACD/KC/CE with periods incl. 1, equal and inverted fast/slow, up to 1024, multipliers {0,0.5,2,3,1e3,-1}; every output component judged at every step against a double-double evaluation of the documented recursion over the whole history; plus long runs of 2*10^5 (quick) / 2*10^6 (thorough) inputs judged on the first 3000 steps, every 997th and the last; plus every bar/scalar sequence up to a depth bound over a small alphabet for periods 1..=4 (exhaustive). Non-trivial: stream longer than every period with >= 2 distinct inputs; distinct by hash of (indicator, params, stream head) or by construction (enumeration).";
+pub const RULE: &str = "Seeded scalar streams (any sign, RAND and band REGIME families) and valid OHLCV bar streams (6 styles + tiled AMZN) for EMA/TR/ATR/MACD/KC/CE with periods incl. 1, equal and inverted fast/slow, up to 1024, multipliers {0,0.5,2,3,1e3,-1}; every output component judged at every step against a double-double evaluation of the documented recursion over the whole history; plus long runs of 1.1*10^6 (quick) / 2.2*10^6 (thorough) inputs judged on the first 3000 steps, every 997th and the last; plus every bar/scalar sequence up to a depth bound over a small alphabet for periods 1..=4 (exhaustive). Non-trivial: stream longer than every period with >= 2 distinct inputs; distinct by hash of (indicator, params, stream head) or by construction (enumeration).";
 
 fn judge(p: &Params, out: &Out, r: &RefOut, js: &mut Judgements) -> usize {
     ema_family_judgements(p, out, r, js);
@@ -146,6 +146,12 @@ fn run_bars(ctx: &Ctx) -> Report {
             let base = *rng.pick(&[1e-2, 1.0, 50.0, 1e4]);
             BarGen::new(BAR_STYLES[idx % BAR_STYLES.len()], base, rng.u64()).take(len)
         };
+        // a quarter of the bar streams are negated (high and low swapped so that low <= close <= high
+        // still holds): spreads and de-meaned series are valid bars with negative prices
+        let bars: Vec<Bar> = if idx % 4 == 3 { bars.iter().map(|b| Bar { o: -b.o, h: -b.l, l: -b.h, c: -b.c, v: b.v }).collect() } else { bars };
+        if idx % 4 == 3 {
+            rep.count("bar.streams_with_negative_prices");
+        }
         let inputs: Vec<In> = bars.iter().map(|b| In::B(*b)).collect();
         // TR arm coverage
         let mut pc = None;
@@ -232,7 +238,7 @@ fn run_enum(ctx: &Ctx) -> Report {
 /// long runs (the recursions have infinite memory: a counter, a re-seed or precision loss far into
 /// the stream is invisible to short streams); judged on the first 3000 steps, every 997th and the last
 fn run_soak(ctx: &Ctx) -> Report {
-    let steps = ctx.pick(200_000usize, 2_000_000usize);
+    let steps = ctx.pick(1_100_000usize, 2_200_000usize); // quick passes 2^20, thorough 2^21
     let seed = ctx.seed;
     let mut jobs = Vec::new();
     for (i, regime) in [crate::gen::Regime::Walk, crate::gen::Regime::Saw(100), crate::gen::Regime::AltExtremes, crate::gen::Regime::BadTicks].iter().enumerate() {
